@@ -182,7 +182,7 @@ def check(run):
     consts = tr_expand(run)
     ok, failed, log = run.coq_props(["Properties_C05.v"])
     exe = build_impl(run)
-    n = 2500 if run.tier == "quick" else 60000
+    n = 2500 if run.tier == "quick" else 30000
     corp = corpus_cases()
     cases, meta = gen_cases(run.rng, consts, n, run.tier)
     allcases = corp + cases
